@@ -39,6 +39,10 @@ pub struct SimThread {
     pub entropy: u64,
     pub heap_shift: usize,
     pub jobs: Vec<JobSpec>,
+    /// the thread keeps one Fs object, one Logger object and one `Options` value per distinct
+    /// option setting for all of its jobs (a caller that builds its Options once); the
+    /// references are always computed with objects of their own
+    pub reuse: bool,
 }
 
 #[derive(Clone, Debug, PartialEq)]
@@ -85,7 +89,7 @@ impl SchedCase {
     pub fn to_json(&self) -> Value {
         json!({
             "kind": self.kind,
-            "threads": self.threads.iter().map(|t| json!({"entropy": t.entropy, "heap_shift": t.heap_shift, "jobs": t.jobs.iter().map(|j| j.to_json()).collect::<Vec<_>>()})).collect::<Vec<_>>(),
+            "threads": self.threads.iter().map(|t| json!({"entropy": t.entropy, "heap_shift": t.heap_shift, "reuse": t.reuse, "jobs": t.jobs.iter().map(|j| j.to_json()).collect::<Vec<_>>()})).collect::<Vec<_>>(),
             "policy": policy_to_json(&self.policy),
             "sched_seed": self.sched_seed,
             "switches": switches_json(&self.switches),
@@ -100,7 +104,7 @@ impl SchedCase {
             for j in t.get("jobs")?.as_array()? {
                 jobs.push(JobSpec::from_json(j)?);
             }
-            threads.push(SimThread { entropy: t.get("entropy")?.as_u64()?, heap_shift: t.get("heap_shift").and_then(|h| h.as_u64()).unwrap_or(0) as usize, jobs });
+            threads.push(SimThread { entropy: t.get("entropy")?.as_u64()?, heap_shift: t.get("heap_shift").and_then(|h| h.as_u64()).unwrap_or(0) as usize, jobs, reuse: t.get("reuse").and_then(|h| h.as_bool()).unwrap_or(false) });
         }
         let mut switches = vec![];
         for s in v.get("switches").and_then(|s| s.as_array()).cloned().unwrap_or_default() {
@@ -287,9 +291,11 @@ pub fn execute(case: &SchedCase, proc_refs: &[((usize, usize), String, String)])
                 // references, which run at seams::DEFAULT_EPOCH: a result that reads the clock differs
                 crate::seams::set_epoch(1_000_000_000 + t2.entropy % 2_000_000_000);
                 sched2.enter(tid);
+                let shared = crate::job::ThreadShared::new();
+                let mut kept: crate::job::OptionsCache = vec![];
                 for j in &t2.jobs {
                     crate::sched::point(crate::sched::PointKind::JobStart, 1);
-                    let r = run_job(j);
+                    let r = if t2.reuse { crate::job::run_job_in(j, Some((&shared, &mut kept))) } else { run_job(j) };
                     let o = obs_of(&r, tid);
                     crate::sched::point(crate::sched::PointKind::JobEnd, 1);
                     results2.lock().unwrap()[tid].push(o);
@@ -659,7 +665,7 @@ fn gen_history_pair(rng: &mut Rng, density: f64) -> (JobSpec, JobSpec) {
         j
     };
     let y = yields(rng, density);
-    let which = rng.below(13);
+    let which = rng.below(14);
     let (a, b) = match which {
         0 => {
             // a built-in module's variable assigned through a plain @forward of that module
@@ -779,6 +785,25 @@ fn gen_history_pair(rng: &mut Rng, density: f64) -> (JobSpec, JobSpec) {
             }
             (first, second)
         }
+        13 => {
+            // a load path that is not there when the first compilation runs (the directory of
+            // generated sources before the generator has run, a dependency not yet installed) and
+            // is there, and wins, when the second one runs with the same option values: whatever
+            // the first compilation learnt about the load paths may not be remembered
+            let (lp_a, lp_b) = ("/t/generated", "/t/vendor");
+            let how = *rng.pick(&["@use \"lib\";\n", "@import \"lib\";\n", "@use \"lib\" as *;\n"]);
+            let main = format!("{}{}a {{ b: c; }}\n", how, y);
+            let mut first = mk("pair13:first", vec![("/t/vendor/_lib.scss", ".lib { from: vendor; }\n".into()), ("/t/main.scss", main.clone())], Ok("/t/main.scss"));
+            let mut second = mk("pair13:second", vec![("/t/vendor/_lib.scss", ".lib { from: vendor; }\n".into()), ("/t/generated/_lib.scss", ".lib { from: generated; }\n".into()), ("/t/main.scss", main)], Ok("/t/main.scss"));
+            if rng.chance(0.3) {
+                // ... or the first compilation finds nothing at all
+                first.files.retain(|f| !f.0.starts_with("/t/vendor"));
+            }
+            for j in [&mut first, &mut second] {
+                j.load_paths = vec![lp_a.to_string(), lp_b.to_string()];
+            }
+            (first, second)
+        }
         _ => {
             // a failed load of a module, then a successful load of the same path
             let first = mk("pair8:first", vec![("/t/_m.scss", "$v: 1;\n@error \"broken module\";\n".into()), ("/t/_n.scss", "@use \"m\";\n".into()), ("/t/main.scss", format!("@use \"n\";\n{}a {{ b: c; }}\n", y))], Ok("/t/main.scss"));
@@ -880,7 +905,7 @@ fn gen_case(rng: &mut Rng, ctx: &Ctx, pools: &Pools) -> SchedCase {
         }
         let entropy = if rng.chance(0.15) { REF_KEY } else { rng.next_u64() | 1 };
         let heap_shift = if rng.chance(0.5) { 0 } else { rng.range(1, 4096) as usize };
-        threads.push(SimThread { entropy, heap_shift, jobs });
+        threads.push(SimThread { entropy, heap_shift, jobs, reuse: rng.chance(0.35) });
     }
     let policy = match rng.below(10) {
         0 | 1 => Policy::Serial,
@@ -929,7 +954,7 @@ fn gen_uid_case(rng: &mut Rng) -> SchedCase {
             1 => common,
             _ => rng.next_u64(),
         };
-        threads.push(SimThread { entropy, heap_shift: 0, jobs: vec![j.clone(), j] });
+        threads.push(SimThread { entropy, heap_shift: 0, jobs: vec![j.clone(), j], reuse: false });
     }
     SchedCase { threads, policy: Policy::Random(0.2), sched_seed: rng.next_u64(), switches: vec![], h1: true, kind: "uid".into(), proc_refs: vec![] }
 }
@@ -1043,6 +1068,19 @@ impl Engine for SchedEngine {
                         res.bump("probe.clock_reads_inside_compilation", cr);
                     }
                     res.bump(&format!("policy.{}", case.policy.name()), 1);
+                    for t in case.threads.iter().filter(|t| t.reuse) {
+                        // jobs that ran with an Options object (and its Fs / Logger objects) an earlier job had used
+                        let mut keys: Vec<String> = vec![];
+                        for j in &t.jobs {
+                            let k = crate::job::options_key(j);
+                            if keys.contains(&k) {
+                                res.bump("probe.job_ran_with_an_options_object_used_before", 1);
+                            } else {
+                                keys.push(k);
+                            }
+                        }
+                        res.bump("threads_keeping_their_options_objects", 1);
+                    }
                     res.bump(&format!("threads.{}", case.threads.len()), 1);
                     res.bump("sim_time_units", out.get("sim_time").and_then(|x| x.as_u64()).unwrap_or(0));
                     res.bump("scheduling_points", out.get("total_points").and_then(|x| x.as_u64()).unwrap_or(0));
@@ -1100,7 +1138,7 @@ impl Engine for SchedEngine {
                     }
                     res.violations.extend(violations_of(&case, &out));
                     if res.samples.len() < 2 && case.threads.len() >= 2 && !inside.is_empty() {
-                        res.samples.push(json!({"threads": case.threads.iter().map(|t| json!({"entropy": t.entropy, "heap_shift": t.heap_shift, "jobs": t.jobs.iter().map(|j| j.label.clone()).collect::<Vec<_>>()})).collect::<Vec<_>>(),
+                        res.samples.push(json!({"threads": case.threads.iter().map(|t| json!({"entropy": t.entropy, "heap_shift": t.heap_shift, "reuse": t.reuse, "jobs": t.jobs.iter().map(|j| j.label.clone()).collect::<Vec<_>>()})).collect::<Vec<_>>(),
                             "policy": case.policy.name(), "switches": sw.iter().take(40).collect::<Vec<_>>(), "n_switches": sw.len()}));
                     }
                 }
@@ -1143,6 +1181,14 @@ impl Engine for SchedEngine {
             d.policy = Policy::Serial;
             d.sched_seed = 0;
             out.push(d);
+        }
+        // fresh Options / Fs / Logger objects for every job
+        for t in 0..c.threads.len() {
+            if c.threads[t].reuse {
+                let mut d = c.clone();
+                d.threads[t].reuse = false;
+                out.push(d);
+            }
         }
         // drop threads
         if c.threads.len() > 1 {
